@@ -1,4 +1,5 @@
 import PEval.Properties.C03Core
+import PEval.Properties.C03Critical
 import PEval.Properties.Pipeline
 import PEval.Properties.KernelStatus
 /-!
@@ -10,6 +11,14 @@ import PEval.Properties.KernelStatus
   model — `matcher_output_wf` (C01's guarantees ARE `MatcherWF`), hence `pipeline_conservation`,
   `pipeline_accounting_perm`, `pipeline_num_total`, `pipeline_tp_fp_exactly_one`,
   `pipeline_history_conservation` with no well-formedness hypothesis left.
+* `PEval/Properties/C03Critical.lean` (namespace `PEval.C03`): the critical region on objects WITH positions, frame
+  ids and transforms (`PEval/Model/CriticalFrame.lean`), both filter call sites of `evaluate_frame` modelled
+  separately: `critical_sound` (nothing outside the region is counted, on the ego-relative position, whichever frame),
+  `critical_sites_agree`, `critical_refines` (+ transfer of the counting theorems), `critical_frame_free` /
+  `evaluateFrame_toMap`; each refuted for the F2-defective wiring (`f2_*`).
+* `PEval/Properties/Pipeline.lean` section (v): `pipeline_tp_sound` — TP soundness stated on the pipeline's inputs
+  (policy, pass/fail target and threshold lists, plane-distance table), refuted for the estimate-label keying
+  (`estLabel_not_tp_sound`); `negative_label_choice`.
 
 The core is a separate module only because the composition imports it (no import cycle); the audit
 of `./check C03` imports this root and therefore sees both.
